@@ -809,7 +809,9 @@ func c20Round4(s *source, e *emitter) {
 	e.c20ExactDef(s, c20Dir+"ast/writer.go", "Writer.WriteText", "x_Writer_WriteText")
 	e.c20ExactDef(s, c20Dir+"ast/writer.go", "Writer.Flush", "x_Writer_Flush")
 	e.c20ExactDef(s, c20Dir+"ast/writer.go", "withNode", "x_withNode")
-	for _, fn := range []string{"Parser.Parse", "Parser.CheckErrors", "Parser.curTokenIsKeyword", "Parser.peekTokenIs", "Parser.expectPeekToken", "New"} {
+	for _, fn := range []string{"Parser.Parse", "Parser.CheckErrors", "Parser.curTokenIsKeyword", "Parser.peekTokenIs", "Parser.expectPeekToken", "New",
+		"Parser.curTokenIs", "Parser.curTokenIsNot", "Parser.curTokenIsNotEof", "Parser.peekTokenIsNot", "Parser.advanceIfPeekTokenIs",
+		"Parser.notExpectPeekToken", "Parser.notExpectPeekTokenGotComment", "Parser.expectIdentError", "isNil", "Parser.appendStmt", "Parser.hasNoErrors"} {
 		e.c20ExactDef(s, c20Dir+"parser/parser.go", fn, "x_"+strings.ReplaceAll(fn, ".", "_"))
 	}
 }
